@@ -371,6 +371,17 @@ Definition extract (pre : path) (umask : N) (preserve : bool) (es : list entry) 
   | Err x => Err x
   end.
 
+(* the same into a working directory that is set-group-ID: pushDir's MkdirAll makes the base
+   directory set-group-ID as well ([sg] = sgid, or 0 for an ordinary working directory) *)
+Definition fs_init_sg (umask sg : N) : fs :=
+  [([], NDir (N.lor (create_mode dir_create_bits umask c12_ensure_dir_perm) sg))].
+
+Definition extract_sg (sg : N) (pre : path) (umask : N) (preserve : bool) (es : list entry) : res fs :=
+  match extract_list pre umask preserve (fs_init_sg umask sg) es with
+  | Ok f => Ok (finish_dirs pre preserve es f)
+  | Err x => Err x
+  end.
+
 (* ---------- an unprivileged user: the kernel's permission check on creating an entry ----------
    Every object of the restored directory belongs to the user who unpacks.  Root passes every
    check; an unprivileged owner needs write and search permission (0300) on the directory in
@@ -490,6 +501,16 @@ Definition expected (umask : N) (preserve : bool) (t : tree) (p : path) : option
   | Some (File c m _) => Some (NFile c (restored_mode umask preserve m))
   | Some (Link tg _) => Some (NLink tg)
   | Some (Dir m _ _) => Some (NDir (restored_mode umask preserve m))
+  end.
+
+(* what the property can expect there: every directory made by mkdir(2) inherits the bit;
+   PreservePermissions sets the recorded mode exactly *)
+Definition expected_sg (sg umask : N) (preserve : bool) (t : tree) (p : path) : option node :=
+  match tree_get t p with
+  | None => None
+  | Some (File c m _) => Some (NFile c (restored_mode umask preserve m))
+  | Some (Link tg _) => Some (NLink tg)
+  | Some (Dir m _ _) => Some (NDir (if preserve then m else N.lor (N.ldiff m umask) sg))
   end.
 
 (* between the last entry and restoreDirModes: directories still have their creation mode,
